@@ -129,12 +129,6 @@ Section GateProofs.
              end.
   Qed.
 
-  (* the content-length test of the internal server lets the request through *)
-  Definition clen_ok (cfg : config) (env : environ) : Prop :=
-    c_internal cfg = false \/
-    exists z, e_clen env = CLNum z /\
-              (negb (Z.eqb z 0) && Z.ltb 0 (c_max_len cfg) && Z.ltb (c_max_len cfg) z) = false.
-
   (* a login that did not yield a usable user: nothing runs, nothing is stored *)
   Lemma after_login_rejected : forall cfg env m bp path ext login user0,
     login <> [] -> (user0 = [] \/ is_safe_path_component user0 = false) ->
@@ -395,6 +389,9 @@ Section GateProofs.
   Qed.
 
   (* 401 is always accompanied by WWW-Authenticate and never by a handler's own answer *)
-  Theorem c05_401_challenge : forall f, www_authenticate f = true <-> f = FUnauthorized.
-  Proof. intros f; destruct f; cbn; split; intros H; try discriminate; reflexivity. Qed.
+  Theorem c05_401_challenge : forall f,
+    (www_authenticate f = true <-> f = FUnauthorized) /\ (f = FUnauthorized -> status_of f = 401).
+  Proof.
+    intros f; split; [destruct f; cbn; split; intros H; try discriminate; reflexivity|intros ->; reflexivity].
+  Qed.
 End GateProofs.
